@@ -13,7 +13,7 @@ from .lib import deep_copy
 class Contract:
     def __init__(self, qual, params=None, requires=(), ensures=(), raises=None, loops=None, cuts=None,
                  mode='inline', result=None, modifies=(), cases=None, top=None, note='', old=(), setup=None,
-                 allow_raises=None, ghost=None, pure=False, use=()):
+                 allow_raises=None, ghost=None, pure=False, use=(), let=None):
         self.qual = qual
         self.params = dict(params or {})
         self.requires = [requires] if isinstance(requires, str) else list(requires)
@@ -31,6 +31,7 @@ class Contract:
         self.setup = setup                    # callable(ip, st, locals, case) building non-first-order inputs
         self.ghost = ghost or {}
         self.pure = pure
+        self.let = dict(let or {})            # name -> expression over entry values, usable in ensures/raises
         self.use = [use] if isinstance(use, str) else list(use)     # lemma instances assumed at every normal exit
 
 
@@ -146,6 +147,8 @@ def entry_state(ip, con, case, fnode, module, cls):
     for r in con.requires:
         v = ip.eval_spec(r, st, {})
         st.assume(ip._z(ip.truth(v, st)))
+    for name, e in con.let.items():
+        st.frame[name] = snapshot(ip, st, ip.eval_spec(e, st, {}))
     return st, pnames, inputs
 
 
@@ -237,6 +240,9 @@ def apply_contract(ip, con, fr, args, kwargs, st, node=None):
         old = {p: snapshot(ip, st, st.frame[p]) for p in pnames if p in st.frame}
         oldobj = st.new_obj('<old>', old)
         env = {'old': oldobj}
+        for name, e in con.let.items():
+            env[name] = snapshot(ip, st, ip.eval_spec(e, st, {}))
+            st.frame[name] = env[name]
         # exceptional exits
         alts = ['normal']
         if con.raises:
